@@ -74,7 +74,8 @@ Redownloadable(id) == id \notin {"r0", "r1"} /\ Design # "row_first"
 
 NoMs == <<>>
 \* alt: steps the code inserts when this (soft) step fails - the fallback path
-S(n, k, a, b, ms, fl) == [n |-> n, k |-> k, h |-> "end", soft |-> FALSE, alt |-> <<>>, a |-> a, b |-> b, ms |-> ms, fl |-> fl]
+\* cut: after the fallback path the rest of the list is skipped; rb: the failing soft step belongs to a transaction, which is rolled back
+S(n, k, a, b, ms, fl) == [n |-> n, k |-> k, h |-> "end", soft |-> FALSE, alt |-> <<>>, cut |-> FALSE, rb |-> FALSE, a |-> a, b |-> b, ms |-> ms, fl |-> fl]
 
 Begin  == S("tx.begin", "begin", "", "", NoMs, {})
 Commit == S("tx.commit", "commit", "", "", NoMs, {})
@@ -83,6 +84,7 @@ Nop(n) == S(n, "nop", "", "", NoMs, {})                      \* a statement with
 Set(m) == S("store.Set", "set", "", "", <<m>>, {})
 Del(m) == S("store.Delete", "del", "", "", <<m>>, {})
 Get(m) == S("store.Get", "get", "", "", <<m>>, {})
+List   == S("store.List", "get", "", "", NoMs, {})
 CreateAdd(box, m, fl) == S("tx.CreateMessageAndAddToMailbox", "createAdd", box, "", <<m>>, fl)
 CreateMsg(m, fl)      == S("tx.CreateMessages", "createMsg", "", "", <<m>>, fl)
 Add(box, m)           == S("tx.AddMessagesToMailbox", "add", box, "", <<m>>, {})
@@ -100,6 +102,9 @@ DelRows(m)            == S("tx.DeleteMessages", "delrows", "", "", <<m>>, {})
 H(seq, h) == [i \in DOMAIN seq |-> [seq[i] EXCEPT !.h = h]]
 Soft(s)   == [s EXCEPT !.soft = TRUE]
 SoftAlt(s, alt) == [s EXCEPT !.soft = TRUE, !.alt = alt]
+\* the caller logs the error of this part and goes on with `rest` instead of what follows in the list
+SoftCut(s, rest)   == [s EXCEPT !.soft = TRUE, !.alt = rest, !.cut = TRUE]
+SoftCutTx(s, rest) == [s EXCEPT !.soft = TRUE, !.alt = rest, !.cut = TRUE, !.rb = TRUE]
 
 EmptyTx == <<Begin, Commit>>
 
@@ -175,10 +180,23 @@ StepsOf(op) ==
            Rd("tx.GetMessageMailboxIDs"), Remove("B", "m3"), Commit>>
     [] op = "RELEASE" ->     \* the last session that still showed m1 (deleted by the remote) goes away: user.removeState
          <<Begin, DelRows("m1"), Commit, Soft(Del("m1"))>>
+    [] op = "RECOVER" ->     \* the start-up itself (backend.newUser) on a directory that holds a message marked for deletion:
+                             \* the recovery mailbox is loaded (hashes of its messages), the marked messages are purged -
+                             \* rows in one transaction, THEN their files (deleteAllMessagesMarkedDeleted) - and the store is
+                             \* listed for files without a row (cleanupStaleStoreData; none here).  A step that fails makes the
+                             \* start fail; the fault may also be a kill: start-up must be restartable at every boundary
+         \* (an unreadable file of a recovered message only costs its hash; a failing purge or clean-up is logged and start-up
+         \* goes on: after a failed purge transaction nothing is stale, after a failed deletion of the purged files the
+         \* clean-up finds them without a row and deletes them)
+         H(<<Begin, Rd("tx.GetOrCreateMailboxAlt"), Rd("tx.GetMailboxMessageIDPairs"), Soft(Get("r0")), Commit>>, "startfail")
+         \o <<SoftCutTx(Begin, <<List>>), SoftCutTx(Rd("tx.GetMessageIDsMarkedAsDelete"), <<List>>),
+              SoftCutTx(DelRows("m1"), <<List>>), SoftCutTx(Commit, <<List>>),
+              SoftCut(Del("m1"), <<Soft(List), Soft(Del("m1"))>>), Soft(List)>>
 
 \* what the code does after a step of region h returned an error (after the rollback)
 Handler(op, h) ==
   CASE h = "end"     -> <<>>
+    [] h = "startfail" -> <<>>                                    \* newUser returns the error: the server does not start
     [] h = "flush"   -> EmptyTx                                   \* handleSelectedCommand: flush(false) also after a failure
     [] h = "unsub"   -> <<Nop("tx.RemoveDeletedSubscriptionWithName")>>   \* finds none -> ErrNoSuchMailbox -> rollback (modelled before it)
     [] h = "cleanup" -> <<Del("m5")>>                             \* applyMessagesCreated: delete the files written so far
@@ -263,7 +281,7 @@ RunAll(dk, seq, i) == IF i > Len(seq) THEN dk ELSE RunAll(Effect(dk, seq[i]), se
 
 \* RELEASE starts from the state in which the remote has deleted m1 while the session still showed it
 PreDisk(op) ==
-  IF op = "RELEASE"
+  IF op \in {"RELEASE", "RECOVER"}
   THEN RunAll(BaseDisk, <<Begin, Mark("tx.MarkMessageAsDeletedWithRemoteID", "m1"), Remove("A", "m1"), Commit>>, 1)
   ELSE BaseDisk
 PostDisk(op) == RecoverDisk(RunAll(PreDisk(op), StepsOf(op), 1))
@@ -333,8 +351,9 @@ FailStep == /\ mode = "run" /\ fault = NoFault /\ pc <= Len(list) /\ FaultPoint(
             /\ trace' = Append(trace, list[pc].n)
             /\ IF list[pc].soft
                THEN /\ pc' = pc + 1
-                    /\ list' = SubSeq(list, 1, pc) \o list[pc].alt \o SubSeq(list, pc + 1, Len(list))
-                    /\ UNCHANGED <<mode, disk>>
+                    /\ list' = SubSeq(list, 1, pc) \o list[pc].alt \o (IF list[pc].cut THEN <<>> ELSE SubSeq(list, pc + 1, Len(list)))
+                    /\ disk' = IF list[pc].rb THEN Rollback(disk) ELSE disk
+                    /\ UNCHANGED mode
                ELSE /\ disk' = Rollback(disk)
                     /\ list' = Handler(op, list[pc].h)
                     /\ pc' = 1
